@@ -628,7 +628,8 @@ func initTopicGrp(t *Topic) error {
 	stopic, err := store.Topics.Get(t.name)
 	if err != nil {
 		return err
-	} else if stopic == nil {
+	} else if stopic == nil || stopic.State == types.StateDeleted {
+		// The topic does not exist or has been soft-deleted.
 		return types.ErrTopicNotFound
 	}
 
